@@ -216,14 +216,96 @@ def scen_ctor(ctx, M):
     return (ok,)
 
 
+def scen_seq(ctx, M):
+    """every call sequence of length k from a freshly constructed watch
+    (operations chosen by forks, symbolic monotone clock): each step agrees
+    with the reference, and every state reached satisfies the invariant
+    the inductive harness starts from (so that invariant is not too
+    strong)"""
+    tu = M.tu
+    k = ctx.p['k']
+    readings = [fl(ctx, 'now%d' % i) for i in range(2 * k)]
+    for a, b in zip(readings, readings[1:]):
+        ctx.assume(b >= a)
+    used = [0]
+
+    def clock():
+        r = readings[used[0]]
+        used[0] += 1
+        return r
+    saved = tu.now
+    tu.now = clock
+    trace = []
+    try:
+        dur = fl(ctx, 'dur') if ctx.p.get('duration') else None
+        if dur is not None:
+            ctx.assume(dur >= 0.0)
+        w = tu.StopWatch(dur)
+        ref = snapshot(w)
+        for step in range(k):
+            op = ctx.choice('op%d' % step, SEQ_OPS)
+            start_used = used[0]
+            try:
+                if op == 'leftover-none':
+                    w.leftover(return_none=True)
+                elif op == '__exit__':
+                    w.__exit__(None, None, None)
+                else:
+                    getattr(w, op)()
+                raised = None
+            except RuntimeError:
+                raised = 'RuntimeError'
+            n_impl = used[0] - start_used
+            used[0] = start_used
+            meth = 'leftover' if op == 'leftover-none' else op
+            try:
+                ref, _res = SW.step(ref, meth, clock,
+                                    True if op == 'leftover-none' else None)
+                illegal = False
+            except SW.Illegal:
+                illegal = True
+                used[0] = start_used + n_impl
+            trace.append(op)
+            ctx.check('C13-seq-legality', (raised is not None) == illegal)
+            ctx.check('C13-seq-state', state_eq(ref, snapshot(w)))
+            # the invariant of the inductive harness holds in every
+            # reachable state
+            st = snapshot(w)
+            if st[0] is None:
+                ctx.check('C13-inv-initial', st[1] is None and st[4] == ())
+            elif st[0] == 'STARTED':
+                ctx.check('C13-inv-started', st[1] is not None)
+            else:
+                ctx.check('C13-inv-stopped',
+                          st[1] is not None and st[2] is not None and
+                          h.veq(st[2] >= st[1], True))
+            for (e_, l_) in st[4]:
+                ctx.check('C13-inv-split-nonneg', AND(e_ >= 0.0, l_ >= 0.0))
+    finally:
+        tu.now = saved
+    ctx.goal('done')
+    return (tuple(trace),)
+
+
+SEQ_OPS = ('start', 'stop', 'resume', 'restart', 'split', 'elapsed',
+           'leftover-none', 'expired', '__exit__')
+
 H = {'step': R.Harness('step', scen_step, load_sym, load_real),
+     'seq': R.Harness('seq', scen_seq, load_sym, load_real),
      'ctor': R.Harness('ctor', scen_ctor, load_sym, load_real)}
 H['step'].required_goals = ('legal', 'illegal')
+H['seq'].required_goals = ('done',)
 
 
 def build_jobs(tier, seed):
     J = common.Job
     jobs = [J(H['ctor'], {})]
+    # length 3 and more runs into IEEE-subtraction monotonicity queries
+    # that z3 does not decide (timeouts): sequences stay at length 2, the
+    # inductive step carries the any-length argument
+    jobs.append(J(H['seq'], dict(k=2, duration=True), split_depth=4))
+    if tier == 'thorough':
+        jobs.append(J(H['seq'], dict(k=2, duration=False), split_depth=4))
     for state in (None, 'STARTED', 'STOPPED'):
         for op in OPS:
             for dur in (False, True):
@@ -257,6 +339,11 @@ def describe(tier):
         'satisfying the invariant: state in {None, STARTED, STOPPED}, '
         'started/stopped instants, duration None or >= 0, 0 or 2 splits '
         '(thorough: also 1); covers call sequences of any length',
+        'sequences': 'additionally every call sequence of length <= %d over '
+        '{start, stop, resume, restart, split, elapsed, leftover, expired, '
+        '__exit__} from the constructor with a symbolic monotone clock: '
+        'agreement with the reference at every step and the inductive '
+        'invariant in every reachable state' % 2,
         'clock': 'each now() call returns a fresh symbolic IEEE double, '
         'finite, |t| <= 1e150; monotone (non-decreasing) and, for the '
         'never-negative clauses, arbitrary (clock may go backwards)',
